@@ -1,4 +1,4 @@
 SPECIFICATION Spec
-CONSTANT WithDup = TRUE
+CONSTANT DupModel = "old"
 INVARIANT ClausesHold
 CHECK_DEADLOCK FALSE
